@@ -83,7 +83,7 @@ Section Keep.
   Proof.
     destruct e as [gid isfunc ins outs| |nid nins nouts].
     - intros s s' H K. simpl in H. destruct (f_vscopes s) as [|top rest] eqn:Hsc; [inversion H|].
-      set (s1 := mkF (f_rv s) (f_rn s) (f_vn s) (f_nn s) (f_inits s) (f_seen s) (f_vcnt s) (f_ncnt s)
+      set (s1 := mkF (f_vx s) (f_nx s) (f_rv s) (f_rn s) (f_vn s) (f_nn s) (f_inits s) (f_seen s) (f_vcnt s) (f_ncnt s)
                      (top :: top :: rest) ([] :: f_nscopes s) (f_mod s)) in *.
       assert (K1 : KInv s1).
       { destruct K as [A B C D]. constructor; simpl; try assumption.
@@ -149,16 +149,16 @@ Proof.
 Qed.
 
 (* C15_fix_keeps_unique (values, one _fix_graph_names run): *)
-Theorem fix_keeps_unique_value g vn nn inits m v n :
+Theorem fix_keeps_unique_value g vx nx vn nn inits m v n :
   vn v = Some n -> n <> [] -> (forall w, w <> v -> vn w <> Some n) ->
   In v (ev_values (events_graph g)) ->
-  forall s', fix_graph_names g vn nn inits m = (s', None) -> f_vn s' v = Some n.
+  forall s', fix_graph_names g vx nx vn nn inits m = (s', None) -> f_vn s' v = Some n.
 Proof.
   intros Hv Hn Hu Hin s' H. unfold fix_graph_names in H.
   destruct (collect_names (events_graph g) vn nn inits) as [rv rn] eqn:Ec.
   assert (Hr : In n rv).
   { pose proof (collect_values (events_graph g) vn nn inits v n Hin Hv Hn) as X. rewrite Ec in X. exact X. }
-  assert (K0 : KInv vn rv v n (fx_init rv rn vn nn inits m)).
+  assert (K0 : KInv vn rv v n (fx_init vx nx rv rn vn nn inits m)).
   { constructor; simpl; auto. intros u x [<-|[]] []. }
   apply (k_target _ _ _ _ _ (fx_events_preserves vn rv v n Hn Hu Hr _ _ _ H K0)).
 Qed.
